@@ -54,7 +54,15 @@ def derive_frame(rng, frame: M.Frame, mode):
         rng.shuffle(ix)
     num = {c: [v[i] for i in ix] for c, v in frame.num.items()}
     cat = {c: [v[i] for i in ix] for c, v in frame.cat.items()}
-    # declared categories are a property of the training column; follow-up data keeps its own dtype but same declaration
+    # follow-up data may store its text columns differently: same declaration, or a categorical with the SAME levels in another order
+    # (the recorded level order decides which column is which, not the new column's own category order)
+    if rng.random() < 0.3:
+        declared = {}
+        for c, v in cat.items():
+            lv = sorted({x for x in frame.cat[c] if x is not None} | {x for x in v if x is not None})
+            rng.shuffle(lv)
+            declared[c] = lv
+        return M.Frame(len(ix), num, cat, None, "category", declared), ix
     return M.Frame(len(ix), num, cat, None, frame.cat_dtype, dict(frame.declared) if frame.declared else None), ix
 
 
